@@ -30,6 +30,5 @@ def _(self):
     ensures(subset(alph(result), union(alnum_chars(), charset("_.~%"))), "url-path-safe")
 
 
-classdef("liquer.parser.StringActionParameter", fields=dict(string=Str, position=Opaque("Any")))
 
 prop("C03", fucs=["liquer.parser.encode_token", "liquer.parser.StringActionParameter.encode"])
